@@ -28,7 +28,7 @@ CLAIMED = {
  'C04': dict(
     text='Slice: the tokeniser split_to_parts is proved for every input: the parts tile the input (contiguous, non-empty, ending at the end) and, at an arbitrary offset, a plain-text part contains none of < > &, '
          'an entity part is &...; with no earlier ;, a tag part is <...> with no earlier >, a comment part is <!--...--> with none of < > & inside. This is the stability argument of the filter: kept parts re-tokenise '
-         'identically, removed or escaped parts contribute no markup. validate_nesting is under contract as well: for an arbitrary entry, a closing tag that keeps its type has found its partner, the partner is an EARLIER entry and links back to it (these links are what filter() uses to drop both halves of a rejected pair); the stack is drained. ends_with (the entity-literal matcher used for attribute values) reports a match only if the bytes at the cursor are exactly the literal and lie inside the value, and moves the cursor by exactly its length; validate_property_value itself is NOT claimed (attempt parked: vacuous on the entity path, DESIGN.md section 4).',
+         'identically, removed or escaped parts contribute no markup. validate_nesting is under contract as well: for an arbitrary entry, a closing tag that keeps its type has found its partner, the partner is an EARLIER entry and links back to it (these links are what filter() uses to drop both halves of a rejected pair); the stack is drained. ends_with (the entity-literal matcher used for attribute values) reports a match only if the bytes at the cursor are exactly the literal and lie inside the value, and moves the cursor by exactly its length; validate_property_value: an accepted attribute value contains no < and no >, and every & in it starts one of the eight white-listed entities lying entirely inside the value (the callee is used through an executable restatement of its proved postcondition, DESIGN.md section 4).',
     note=TRUST + 'Not covered: the tag/attribute grammar functions (parse_html_tag, parse_properties, validate_property_value: contracts written, proofs parked in specs/wip), rule lookup (std::map/set), regex and URI validators, validate_nesting (std::stack), numeric entity ranges, the escape loop, character-encoding validation (units utf8/encoding), '
          'and the composition validate(filter(x)) over token vectors. std::vector<entry>::push_back is a stub asserting tiling and classification; the input is modelled inside an object with 4 bytes of slack (p+4<end).',
     design='4 (C04)', technique='cbmc loop contracts (goto-instrument --apply-loop-contracts) on extracted C, obligations solved in chunks; ghost-offset classification asserted at every push_back'),
